@@ -1,24 +1,38 @@
 """C13 — the number of MPI ranks changes neither what is enumerated nor its soundness."""
-import filecmp, os
+import filecmp, json, os, re
 import shutil
 import common, extract, libgen, oracle_lib, mpirun, synthlib
 
-LEAN_MODULE = "ESRVerif.Props.C13"
+LEAN_MODULE = ["ESRVerif.Props.C13", "ESRVerif.Props.C13b"]
 LEVEL = "proof"
 LEVEL_TEXT = ("Lean theorems over an execution model of ESR's MPI use: a program whose ranks run the same action list and communicate only through "
               "collectives has one result under every interleaving of rank progress and never deadlocks (unbounded ranks, program length, schedules); "
               "splitting into split_idx blocks, per-item work and rank-ordered gathering is independent of the rank count incl. P > N. That the generation "
               "code has this shape is re-derived from the source on every run (collective skeleton with rank-taint analysis, every split_idx use site "
-              "handling the empty block; decided in Lean over the regenerated table), and real generation runs under a multi-process MPI stand-in for "
-              "several rank counts incl. more ranks than functions, with randomised release order, are compared byte for byte and checked with the C03 oracle.")
-TECHNIQUE = "Lean 4 proof of SPMD determinism/deadlock-freedom + block data-flow lemmas; skeleton regenerated from source; multi-rank differential runs"
-RULE = ("one case = one generation run (basis, complexities 1..n, P ranks, release-delay seed) compared with the 1-rank run; non-trivial = P>=2; "
-        "distinct by (basis, n, P, delay seed)")
+              "handling the empty block; decided in Lean over the regenerated table). List-level models of make_changes (changed-index lists, gathered "
+              "start_idx, in-place writes for ranks in order), of the gather of initial_sympify, of load_subs and of check_results' flagged-index "
+              "bookkeeping, written as the code does them with the index arithmetic (start_idx construction, imin, the offset added to a local flagged "
+              "index) read from the source as small terms, are proved to give the rank-count-free result for every N and every P >= 1 "
+              "(makeChanges_eq_concat, initialSympify_gather, loadSubs_scatter_gather, flagged_indices_global). Real generation runs under a multi-process "
+              "MPI stand-in for several rank counts incl. more ranks than functions, with randomised release order, are compared byte for byte and checked "
+              "with the C03 oracle; the real make_changes, load_subs and initial_sympify are run in isolation for every (N, P) up to (40, 17) and compared "
+              "with the model and with the concatenation of the per-rank results; check_results' list of un-merged functions is compared across rank counts.")
+TECHNIQUE = ("Lean 4 proof of SPMD determinism/deadlock-freedom + block data-flow lemmas + list-level proofs of the gather/offset arithmetic read from the "
+             "source; skeleton and index terms regenerated from source; multi-rank differential runs; exhaustive (N,P) correspondence of the gather functions")
+RULE = ("one case = one generation run (basis, complexities 1..n, P ranks, release-delay seed) compared with the 1-rank run, or one call of the real "
+        "make_changes / load_subs / initial_sympify on N items under P ranks, or one check_results run; non-trivial = P>=2 (and N>=1 for the isolated "
+        "calls); distinct by (basis, n, P, delay seed) resp. (function, N, P)")
 EXPLANATION = LEVEL_TEXT
 TRUSTED = ["rank-taint analysis in harness/extractors/spmd.py (flow-sensitive, per function; sound for the constructs it recognises, fails closed otherwise)",
+           "harness/extractors/gather.py: symbolic reading of the index variables of make_changes / check_results (straight-line code, split_idx case "
+           "split, rank-0 block between gather and bcast); fails closed on other shapes; the loops around them (chidx comprehension, update loop, "
+           "flagging loop) are shape-checked, their bodies' per-item work is not modelled",
+           "make_changes model: all ranks enter with equal all_fun/all_sym/all_inv_subs; the three lists are written independently; `.copy()` is a value",
            "per-item computations are functions of the item (sympy caches, hash order: PYTHONHASHSEED fixed) - hypothesis `hpure`, sampled by the differential runs",
            "stand-in collectives pickle payloads like mpi4py lowercase methods; no real MPI progress engine"]
-ASSUMPTIONS = ["exceptions other than the empty-block unpacking are not modelled statically; a rank raising between collectives is detected only by the real runs"]
+ASSUMPTIONS = ["exceptions other than the empty-block unpacking are not modelled statically; a rank raising between collectives is detected only by the real runs",
+               "makeChanges_eq_concat assumes every rank passes lists of the length of its split_idx block (true at both call sites in sympy_simplify: the "
+               "lists are slices all_fun[imin:imax]; read, not extracted)"]
 MODELLED = ["simplifier.py:make_changes", "simplifier.py:initial_sympify", "simplifier.py:load_subs", "simplifier.py:check_results",
             "simplifier.py:expand_or_factor", "utils.py:split_idx", "generator.py:shape_to_functions"]
 
@@ -70,23 +84,65 @@ def _one(ctx, runname, nmax, P, delay_seed, ref, basis=None, compls=None):
     return r["dir"] if ok else None
 
 
+def _parse_flagged(path):
+    """the `to_change` list rank 0 prints (original indices, in gathered order), or None if the listing is not found"""
+    try:
+        t = open(path).read()
+    except Exception:
+        return None
+    m = re.search(r"Need to change (\d+) functions\n((?:\[.*\]\n)*)", t)
+    if not m:
+        return None
+    idx = [int(x) for x in re.findall(r"^\[(?:np\.int64\()?(\d+)\)?, ", m.group(2), flags=re.M)]
+    return idx if len(idx) == int(m.group(1)) else None
+
+
+def _flagged_vs_model(ctx, rows, P, flagged, rp):
+    """`flagged_indices_global` on the real run: the list of un-merged functions is, for every P, the list of flagged positions of
+    the shuffled list mapped through shufidx (model), i.e. the P = 1 list (oracle).  Which items fail the check is taken from the
+    first completed run (per-item, `hpure`)."""
+    import numpy as np
+    ref = next((flagged[q] for q in sorted(flagged) if flagged[q] is not None), None)
+    got = flagged.get(P)
+    if ref is None or got is None:
+        ctx.disagree("corr:check_results-listing", "the `Need to change` listing of rank 0 could not be read (P=%d)" % P)
+        return
+    shuf = np.array([i for i, r in enumerate(rows) if len(r["chain"]) != 0])
+    np.random.RandomState(1234).shuffle(shuf)
+    shuf = [int(i) for i in shuf]
+    flags = ["1" if i in set(ref) else "0" for i in shuf]
+    mo = common.model(["gather_cr %d %s %s" % (P, _tok(flags), _tok([str(i) for i in shuf]))])[0]
+    m = None if mo == "error" else [int(t) for t in _unt(mo.split(" ")[1])]
+    ctx.extra["check_results_flag_lists"] = ctx.extra.get("check_results_flag_lists", 0) + 1
+    if m != got:
+        ctx.disagree("corr:check_results-flagged:P=%d" % P, "model %s vs real %s" % (m, got))
+    if got != ref:
+        ctx.fail("check_results-flags-differ:P=%d" % P,
+                 "check_results on a %d-row library un-merges the functions %s under %d ranks but %s under %d rank(s): the global index of a flagged function depends on the rank count" % (
+                     len(rows), got, P, ref, min(q for q in flagged if flagged[q] is not None)),
+                 dict(rp, ref_P=min(q for q in flagged if flagged[q] is not None)))
+
+
 def _check_results_ranks(ctx, nlibs, Ps):
     """check_results in isolation on hand-built libraries holding deliberately wrong merges: whatever the rank count,
     every function it leaves merged must be sound (the wrong ones must be the ones it un-merges)"""
     for k in range(nlibs):
         base = os.path.join(ctx.tmp, "synth_%d" % k)
         rows = synthlib.build(os.path.join(base, "P0", "compl_3"), 3, ctx.rng, nrows=ctx.rng.choice([17, 23, 26, 31]), nwrong=ctx.rng.choice([2, 3, 5]))
+        flagged = {}
         for P in Ps:
             d = os.path.join(base, "P%d" % P)
             shutil.copytree(os.path.join(base, "P0"), d)
             r = mpirun.run(P, [os.path.join(common.HARNESS, "workers", "check_results.py"), os.path.join(d, "compl_3"), "3"], timeout=300,
                            env_extra=ctx.env(), cwd=ctx.stage, python=common.PY)
+            flagged[P] = _parse_flagged(r["stdout"][0]) if r["ok"] else None
             shutil.rmtree(r.get("tmp", ""), ignore_errors=True)
             ctx.case(("check_results", k, P), nontrivial=P >= 2)
             rp = dict(kind="check_results", rows=rows, P=P)
             if not r["ok"]:
                 ctx.fail("check_results-incomplete:P=%d" % P, "check_results on a %d-row library under %d ranks does not complete on every rank: %s %s" % (len(rows), P, r["error"], r["exit_codes"]), rp)
                 continue
+            _flagged_vs_model(ctx, rows, P, flagged, rp)
             fails, st = oracle_lib.check_library(d, 3, ctx.rng, npoints=3)
             for f in fails[:2]:
                 ctx.fail("check_results-leaves-unsound:P=%d:%s" % (P, f["kind"]),
@@ -96,10 +152,215 @@ def _check_results_ranks(ctx, nlibs, Ps):
             ctx.extra["check_results_rows"] += st["checked_numeric"]
 
 
+# --------------------------------------------------------------------------------------------------
+# make_changes / load_subs / initial_sympify in isolation: real function under P ranks vs model vs oracle
+# --------------------------------------------------------------------------------------------------
+
+GATHER_WORKER = os.path.join(common.HARNESS, "workers", "c13_gather.py")
+
+
+def _blk(N, P, r):
+    """numpy.array_split block of rank r (independent of utils.split_idx and of the Lean model)"""
+    q, m = divmod(N, P)
+    lo = r * q + min(r, m)
+    return lo, lo + q + (1 if r < m else 0)
+
+
+def _mc_job(rng, N, P):
+    """every rank holds its block of all_fun and rewrites a PRNG-chosen subset of it (f17 -> g17, s17 -> t17, inv None/d17 -> None/e17);
+    the local sym/inv of an UNCHANGED function may differ from the global one and must not be propagated"""
+    all_fun = ["f%d" % i for i in range(N)]
+    all_sym = ["s%d" % i for i in range(N)]
+    all_inv = [None if rng.random() < 0.4 else "d%d" % i for i in range(N)]
+    dens = rng.choice([0.0, 0.15, 0.5, 0.5, 1.0])
+    loc = []
+    for r in range(P):
+        lo, hi = _blk(N, P, r)
+        sf, yf, vf = [], [], []
+        for g in range(lo, hi):
+            if rng.random() < dens:
+                sf.append("g%d" % g); yf.append("t%d" % g); vf.append(rng.choice([None, "e%d" % g]))
+            else:
+                sf.append(all_fun[g]); yf.append(rng.choice(["s%d" % g, "u%d" % g])); vf.append(rng.choice([all_inv[g], "w%d" % g, None]))
+        loc.append([sf, yf, vf])
+    return dict(kind="mc", all_fun=all_fun, all_sym=all_sym, all_inv=all_inv, loc=loc)
+
+
+def _mc_oracle(jb):
+    """concatenation of the per-rank results in rank order; sym/inv follow where the string changed, else the old entry stays"""
+    cat = [sum((l[k] for l in jb["loc"]), []) for k in range(3)]
+    ch = [a != b for a, b in zip(cat[0], jb["all_fun"])]
+    return [cat[0], [n if c else o for c, n, o in zip(ch, cat[1], jb["all_sym"])], [n if c else o for c, n, o in zip(ch, cat[2], jb["all_inv"])]]
+
+
+def _ls_rows(rng, N):
+    rows = []
+    for i in range(N):
+        k = rng.random()
+        rows.append([] if k < 0.2 else ["nan"] if k < 0.3 else ["{a0: a0 + %d}" % (i + 1)] if k < 0.8 else ["{a1: a1 + %d}" % (i + 1), "{a0: %d*a0}" % (i + 2)])
+    return rows
+
+
+def _write_ls(path, rows):
+    import csv
+    with open(path, "w") as f:
+        csv.writer(f, delimiter=";").writerows(rows)
+
+
+def _tok(xs, none="N"):
+    return ",".join(none if x is None else x for x in xs) if xs else "-"
+
+
+def _mc_line(jb):
+    return "gather_mc %s %s %s %s" % (_tok(jb["all_fun"]), _tok(jb["all_sym"]), _tok(jb["all_inv"]),
+                                      " ".join(";".join(_tok(x) for x in l) for l in jb["loc"]))
+
+
+def _unt(s):
+    return [] if s == "-" else [None if t == "N" else t for t in s.split(",")]
+
+
+def _run_gather(ctx, P, jobs, tag):
+    d = os.path.join(ctx.tmp, "c13_gather"); os.makedirs(d, exist_ok=True)
+    jf = os.path.join(d, "jobs_%s.json" % tag)
+    for jb in jobs:
+        if jb["kind"] == "ls":
+            jb["file"] = os.path.join(d, "ls_%s_%d.csv" % (tag, len(jb["rows"])))
+            _write_ls(jb["file"], jb["rows"])
+    json.dump(jobs, open(jf, "w"))
+    pre = os.path.join(d, "out_%s" % tag)
+    r = mpirun.run(P, [GATHER_WORKER, jf, pre], timeout=120, env_extra=ctx.env(), cwd=ctx.stage, python=common.PY)
+    outs = []
+    for q in range(P):
+        try:
+            outs.append(json.load(open("%s.%d.json" % (pre, q))))
+        except Exception:
+            outs.append(None)
+    shutil.rmtree(r.get("tmp", ""), ignore_errors=True)
+    return r, outs
+
+
+def _judge(jb, P, outs, is_map):
+    """the property's own statement on the real outputs of one job on all ranks: None if it holds, else a description"""
+    if jb["kind"] == "mc":
+        want, name = _mc_oracle(jb), "make_changes"
+    elif jb["kind"] == "ls":
+        want, name = [list(r) for r in jb["rows"]], "load_subs"
+    else:
+        want, name = [is_map[s] for s in jb["all_fun"]], "initial_sympify"
+    for q, o in enumerate(outs):
+        if o is None:
+            return "%s under %d ranks: rank %d produced no result" % (name, P, q)
+        if o[0] != "ok":
+            return "%s under %d ranks raises on rank %d: %s" % (name, P, q, o[1])
+        if o[1] != want:
+            k = next((i for i, (a, b) in enumerate(zip(o[1], want)) if a != b), None) if jb["kind"] != "mc" else None
+            return ("%s under %d ranks on %d items: rank %d holds %s, but the per-item results in rank order (what one rank computes) are %s%s" % (
+                name, P, len(jb.get("all_fun", jb.get("rows", []))), q, json.dumps(o[1])[:400], json.dumps(want)[:400],
+                "" if k is None else " (first difference at row %d)" % k))
+    return None
+
+
+def _is_items(n):
+    return ["%d + x*x*a0" % (i + 1) if i % 3 else "x*%d + x" % (i + 2) for i in range(n)]
+
+
+def _is_map(items, k=1):
+    """the per-item function of initial_sympify, computed without any gather (parallel=False) in this process"""
+    import esr.generation.simplifier as S
+    r, _ = S.initial_sympify(list(items), k, verbose=False, parallel=False, save_sympy=False)
+    return dict(zip(items, r))
+
+
+def _gather_isolation(ctx, Nmax, Pmax):
+    """all (N, P) with N <= Nmax, P <= Pmax: one launch of P ranks handles every N"""
+    from concurrent.futures import ThreadPoolExecutor
+    import time
+    t0 = time.time()
+    items = _is_items(Nmax)
+    is_map = _is_map(items)
+    plans = {}
+    for P in range(1, Pmax + 1):
+        jobs = []
+        for N in range(Nmax + 1):
+            jobs.append(_mc_job(ctx.rng, N, P))
+            jobs.append(dict(kind="ls", rows=_ls_rows(ctx.rng, N), k=2))
+            jobs.append(dict(kind="is", all_fun=items[:N], k=1))
+        plans[P] = jobs
+    with ThreadPoolExecutor(max_workers=3) as ex:
+        futs = {P: ex.submit(_run_gather, ctx, P, plans[P], "P%d" % P) for P in plans}
+        res = {P: futs[P].result() for P in plans}
+    lines, idx = [], []
+    nfail, shown = {}, {}
+    for P, jobs in plans.items():
+        r, outs = res[P]
+        complete = r["ok"] and all(o is not None and len(o) == len(jobs) for o in outs)
+        for j, jb in enumerate(jobs):
+            N = len(jb.get("all_fun", jb.get("rows", [])))
+            name = {"mc": "make_changes", "ls": "load_subs", "is": "initial_sympify"}[jb["kind"]]
+            key = "%s:N=%d:P=%d" % (name, N, P)
+            ctx.case(("gather", jb["kind"], N, P), nontrivial=P >= 2 and N >= 1)
+            per = [o[j] if (o is not None and j < len(o)) else None for o in outs]
+            bad = _judge(jb, P, per, is_map)
+            if bad is None and not complete and j == len(jobs) - 1:
+                bad = "%s under %d ranks: the run did not complete on every rank: %s %s" % (name, P, r["error"], r["exit_codes"])
+            if bad is not None:
+                nfail[name] = nfail.get(name, 0) + 1
+                how = (name, "raises" if " raises on rank " in bad else "differs" if " holds " in bad else "incomplete", P >= 2)
+                shown[how] = shown.get(how, 0) + 1
+                if shown[how] <= 2:            # smallest N first; with and without a second rank; raising and silently wrong
+                    rj = {k: v for k, v in jb.items() if k != "file"}
+                    ctx.fail("gather-isolation:" + key, bad, dict(kind="gather", P=P, job=rj))
+            if jb["kind"] == "mc":
+                lines.append(_mc_line(jb))
+            elif jb["kind"] == "ls":
+                lines.append("gather_ls %d %d" % (P, N))
+            else:
+                lines.append("gather_is " + " ".join(_tok(["i%d" % g for g in range(*_blk(N, P, q))]) for q in range(P)))
+            idx.append((P, j, jb, per, key))
+        if len(ctx.samples) < 10 and P in (3, Pmax):
+            jb = jobs[3 * min(7, Nmax)]
+            ctx.sample(dict(make_changes=dict(P=P, all_fun=jb["all_fun"], str_fun_per_rank=[l[0] for l in jb["loc"]], result_rank0=(outs[0] or [[None, None]] * 99)[3 * min(7, Nmax)][1])))
+    mout = common.model(lines)
+    ncorr = 0
+    for (P, j, jb, per, key), mo in zip(idx, mout):
+        real = per[0]
+        if real is None:
+            continue
+        if jb["kind"] == "mc":
+            m = None if mo == "error" else [_unt(t) for t in mo.split(" ")[1:]]
+            rl = real[1] if real[0] == "ok" else None
+        elif jb["kind"] == "ls":
+            order = [] if mo == "-" else [int(t) for t in mo.split(",")]
+            m = [list(jb["rows"][i]) for i in order]
+            rl = real[1] if real[0] == "ok" else None
+        else:
+            m = None if mo == "error" else [None if t is None else is_map[jb["all_fun"][int(t[1:])]] for t in _unt(mo.split(" ")[1])]
+            rl = real[1] if real[0] == "ok" else None
+        ncorr += 1
+        if m != rl and sum(1 for d_ in ctx.disagreements if d_["name"].startswith("corr:gather")) < 6:
+            ctx.disagree("corr:gather:" + key, "model %s vs real %s" % (json.dumps(m)[:300], json.dumps(rl)[:300]))
+    ctx.extra["gather_isolation"] = dict(Nmax=Nmax, Pmax=Pmax, cases=len(idx), compared_with_model=ncorr, failing=nfail, wall_s=round(time.time() - t0, 1),
+                                         functions=["make_changes", "load_subs", "initial_sympify"])
+
+
+def _replay_gather(ctx, rp):
+    jb = dict(rp["job"])
+    is_map = _is_map(jb["all_fun"], jb.get("k", 1)) if jb["kind"] == "is" else None
+    r, outs = _run_gather(ctx, rp["P"], [jb], "replay")
+    bad = _judge(jb, rp["P"], [o[0] if o else None for o in outs], is_map)
+    if bad is None and not r["ok"]:
+        bad = "run did not complete: %s %s" % (r["error"], r["exit_codes"])
+    if bad:
+        print(bad)
+    return bad is None
+
+
 def run(ctx):
-    drift = extract.drifted(ctx.proof.get("extract", {}), MODELLED)
+    drift =extract.drifted(ctx.proof.get("extract", {}), MODELLED)
     deep = (not ctx.quick) or bool(drift)
     ctx.extra["source_drift"] = drift
+    _gather_isolation(ctx, 40 if deep else 24, 17 if deep else 9)
     if deep:
         plan = [("core_maths", 5, [2, 3, 4, 5, 8, 16]), ("ext_maths", 4, [2, 3, 7, 16]), ("base_e_maths", 4, [3, 5, 11]), ("osc_maths", 3, [16])]
     else:
@@ -118,30 +379,45 @@ def run(ctx):
     if ref is not None:
         _one(ctx, "verif_c13", 3, ctx.rng.choice([6, 7, 9] if ctx.quick else [9, 13, 16]), ctx.seed, ref, basis=b)
     _check_results_ranks(ctx, 6 if deep else 2, [1, 2, 3, 5, 7] if deep else [1, 3, 5])
-    ctx.extra["corr_obligations"] = 1
-    ctx.extra["corr_discharged"] = int(not ctx.failures)
+    ctx.extra["corr_obligations"] = 3
+    ctx.extra["corr_discharged"] = (int(not ctx.failures) + int(not any(d["name"].startswith("corr:gather") for d in ctx.disagreements))
+                                    + int(not any(d["name"].startswith("corr:check_results") for d in ctx.disagreements)))
     ctx.extra["plan"] = [list(p) for p in plan]
 
 
 def replay(ctx, data):
     rp = data["replay"]
     c2 = common.Ctx("C13", "quick", 0); c2.tmp = ctx.tmp; c2.stage = ctx.stage
+    if rp.get("kind") == "gather":
+        return _replay_gather(ctx, rp)
     if rp.get("kind") == "check_results":
         import csv
-        d = os.path.join(ctx.tmp, "replay_cr", "compl_3"); os.makedirs(d)
         rows = rp["rows"]
-        open(os.path.join(d, "all_equations_3.txt"), "w").writelines(r["fun"] + "\n" for r in rows)
-        open(os.path.join(d, "unique_equations_3.txt"), "w").writelines(u + "\n" for u in synthlib.UNIQUES)
-        open(os.path.join(d, "matches_3.txt"), "w").writelines("%d\n" % r["match"] for r in rows)
-        with open(os.path.join(d, "inv_subs_3.txt"), "w") as f:
-            csv.writer(f, delimiter=";").writerows([r["chain"] for r in rows])
-        for name in ("trees", "aifeyn"):
-            open(os.path.join(d, "%s_3.txt" % name), "w").writelines("0\n" for _ in rows)
-        r = mpirun.run(rp["P"], [os.path.join(common.HARNESS, "workers", "check_results.py"), d, "3"], timeout=300, env_extra=ctx.env(), cwd=ctx.stage, python=common.PY)
-        fails, st = oracle_lib.check_library(os.path.dirname(d), 3, ctx.rng, npoints=3) if r["ok"] else ([dict(detail=r["error"])], {})
+
+        def once(P, tag):
+            d = os.path.join(ctx.tmp, "replay_cr_%s" % tag, "compl_3"); os.makedirs(d)
+            open(os.path.join(d, "all_equations_3.txt"), "w").writelines(r["fun"] + "\n" for r in rows)
+            open(os.path.join(d, "unique_equations_3.txt"), "w").writelines(u + "\n" for u in synthlib.UNIQUES)
+            open(os.path.join(d, "matches_3.txt"), "w").writelines("%d\n" % r["match"] for r in rows)
+            with open(os.path.join(d, "inv_subs_3.txt"), "w") as f:
+                csv.writer(f, delimiter=";").writerows([r["chain"] for r in rows])
+            for name in ("trees", "aifeyn"):
+                open(os.path.join(d, "%s_3.txt" % name), "w").writelines("0\n" for _ in rows)
+            r = mpirun.run(P, [os.path.join(common.HARNESS, "workers", "check_results.py"), d, "3"], timeout=300, env_extra=ctx.env(), cwd=ctx.stage, python=common.PY)
+            flagged = _parse_flagged(r["stdout"][0]) if r["ok"] else None
+            fails, st = oracle_lib.check_library(os.path.dirname(d), 3, ctx.rng, npoints=3) if r["ok"] else ([dict(detail=r["error"])], {})
+            return flagged, fails
+
+        flagged, fails = once(rp["P"], "P")
         for f in fails:
             print(f["detail"])
-        return not fails
+        ok = not fails
+        if rp.get("ref_P") is not None:
+            ref, _ = once(rp["ref_P"], "ref")
+            if ref != flagged:
+                print("un-merged under %d ranks: %s; under %d rank(s): %s" % (rp["P"], flagged, rp["ref_P"], ref))
+                ok = False
+        return ok
     ref = _one(c2, rp["runname"], rp["nmax"], 1, None, None, basis=rp.get("basis"), compls=rp.get("compls"))
     if rp["P"] != 1:
         _one(c2, rp["runname"], rp["nmax"], rp["P"], rp.get("delay_seed"), ref, basis=rp.get("basis"), compls=rp.get("compls"))
